@@ -17,7 +17,7 @@ E == Tr[l]
 Flag(c, ok) == IF ok THEN {} ELSE {c}
 Init == /\ tid \in 1..Len(Traces) /\ l = 1 /\ bad = {}
         /\ R = [acc |-> {}, rc4 |-> {}, rc5 |-> {}, eodok |-> {}, eod4 |-> {}, eod5 |-> {}, msg |-> 0,
-                fails |-> {}, msg5 |-> FALSE, stall |-> -1, returned |-> FALSE, nrcpt |-> 0, mailcls |-> 0, early |-> {}, nonrcpt |-> FALSE]
+                fails |-> {}, msg5 |-> FALSE, stall |-> -1, returned |-> FALSE, nrcpt |-> 0, mailcls |-> 0, early |-> {}, nonrcpt |-> FALSE, xearly |-> FALSE]
 Cls(c) == c \div 100
 \* failure events the downstream produced: "4", "5" (reply classes) and "x" (disconnect, garbage, silence, refusal)
 FailOf(e) == IF e.stage = "starttls_opt" /\ e.act = "code" THEN {}      \* STARTTLS refused, TLS not required: delivery goes on in clear
@@ -38,6 +38,9 @@ EvPeer ==
                        !.eod4 = IF E.stage = "eod" /\ E.act = "code" /\ Cls(E.code) = 4 THEN @ \cup {E.i} ELSE @,
                        !.eod5 = IF E.stage = "eod" /\ E.act = "code" /\ Cls(E.code) = 5 THEN @ \cup {E.i} ELSE @,
                        !.stall = IF E.act = "stall" /\ R.stall = -1 THEN E.now ELSE @,
+                       !.mailcls = IF E.stage = "mail" /\ E.act = "code" /\ Cls(E.code) \in {4, 5} /\ R.mailcls = 0 THEN Cls(E.code) ELSE @,
+                       \* the connection itself failed (garbage, disconnect, silence) before the message content was due
+                       !.xearly = @ \/ (E.act # "code" /\ E.stage \notin {"eod", "rset", "quit"}),
                        \* something other than the refusal of a recipient went wrong (before the result was set)
                        !.nonrcpt = @ \/ (f # {} /\ E.stage \notin {"rcpt", "quit", "rset"})
                                      \/ (f # {} /\ E.stage = "rcpt" /\ E.act # "code")]
@@ -69,6 +72,11 @@ EvRet ==
                      \A i \in Rcpts : LET rep == IF E.kind = "raise" THEN E.cls ELSE E.per[i + 1] IN
                                        /\ (i \in R.rc5 /\ i \notin R.rc4) => rep = "P"
                                        /\ (i \in R.rc4 /\ i \notin R.rc5) => rep = "T")
+       \* a refused MAIL is the outcome of the whole message: what the downstream says to the RCPT and DATA commands
+       \* that PIPELINING had already sent (typically 503) does not change its class
+       \cup Flag("C11_MailVerdict",
+                 (T.cfg.kind = "smtp" /\ R.mailcls # 0 /\ ~R.xearly) =>
+                     E.kind = "raise" /\ E.cls = (IF R.mailcls = 5 THEN "P" ELSE "T"))
        \cup Flag("C11_NoSpuriousFailure", R.fails = {} => E.kind \in {"whole", "map"} /\ \A i \in Rcpts : E.per[i + 1] = "ok")
        \cup Flag("C14_Bounded", R.stall # -1 => E.now <= T.cfg.deadline)
        \cup Flag("C14_TransientOnTimeout", (R.stall # -1 /\ R.fails = {"x"}) =>
